@@ -18,7 +18,8 @@ US = "\x1f"
 TYPES = ["int", "double", "bool", "string", "Base", "Derived", "Other"]
 FORMS = ["val", "cref", "ref", "ptr", "cptr", "sh", "csh"]
 CAT1 = [(t, f) for t in TYPES for f in FORMS] + [("char", "val"), ("uint", "val"), ("long", "val"), ("float", "val"), ("llong", "cref"),
-                                                  ("Boxed_Value", "val"), ("Boxed_Number", "val"), ("function", "val"), ("vector", "cref")]
+                                                  ("Boxed_Value", "val"), ("Boxed_Number", "val"), ("function", "val"), ("vector", "cref"),
+                                                  ("intvector", "cref"), ("intmap", "cref"), ("Wrapped", "cref")]
 CAT2 = [(("int", "val"), ("int", "val")), (("int", "val"), ("double", "val")), (("double", "val"), ("int", "val")), (("int", "val"), ("string", "cref")),
         (("string", "cref"), ("int", "val")), (("Base", "cref"), ("int", "val")), (("Derived", "ref"), ("int", "val")), (("bool", "val"), ("int", "val")),
         (("Boxed_Value", "val"), ("Boxed_Value", "val")), (("string", "cref"), ("string", "cref")), (("int", "ref"), ("int", "ref")),
@@ -39,7 +40,8 @@ KINDS = {
     "shared_const_base": ("Base", True, "shared", True, None), "ptr_base": ("Base", False, "ref", True, None),
     "script_base": ("Base", False, "shared", True, None), "script_derived": ("Derived", False, "shared", True, None), "script_other": ("Other", False, "shared", True, None),
     "script_fn": ("function", True, "shared", True, None), "dynobj": ("dynobj", False, "shared", True, None), "undef": ("undef", False, "shared", True, None),
-    "vector": ("vector", False, "shared", True, None), "ret_int": ("int", True, "shared", False, 6), "ret_str": ("string", False, "shared", False, "strx"),
+    "vector": ("vector", False, "shared", True, None), "map": ("map", False, "shared", True, None), "vector_mixed": ("vector", False, "shared", True, "mixed"),
+    "ret_int": ("int", True, "shared", False, 6), "ret_str": ("string", False, "shared", False, "strx"),
 }
 MUST, MAY, NEVER = "MUST", "MAY", "NEVER"
 
@@ -59,6 +61,14 @@ def admit(param, kind):
         return MUST if a == "function" else NEVER
     if t == "vector":
         return MUST if a == "vector" else NEVER
+    if t == "intvector":      # registered vector_conversion: every element must itself convert to int
+        if a != "vector":
+            return NEVER
+        return MAY if KINDS[kind][4] == "mixed" else MUST
+    if t == "intmap":         # registered map_conversion
+        return MUST if a == "map" else NEVER
+    if t == "Wrapped":        # registered user conversion Other -> Wrapped
+        return MUST if a == "Other" else NEVER
     if t in ARITH:
         if a not in ARITH:
             return NEVER
@@ -115,6 +125,12 @@ def expected_recv(param, kind):
         return "bool:true"
     if t == "string" and a == "string":
         return "string:%s" % v
+    if t == "intvector" and a == "vector" and v != "mixed":
+        return "intvector:1,2,"
+    if t == "intmap" and a == "map":
+        return "intmap:a=1,b=2,"
+    if t == "Wrapped" and a == "Other":
+        return "wrapped:1033"
     return None
 
 
@@ -133,7 +149,7 @@ def run(ctx, tier, seed, scale=1.0):
             calls = [(rng.choice(kinds),) for _ in range(10)]
             # always attack every signature with a same-type const / non-const / derived / unrelated argument
             calls += [("lit_int",), ("var_int",), ("const_int",), ("var_dbl",), ("lit_bool",), ("var_str",), ("lit_str",), ("derived",), ("const_derived",),
-                      ("shared_derived",), ("other",), ("undef",)][:rng.randrange(4, 12)]
+                      ("shared_derived",), ("other",), ("undef",), ("vector",), ("map",), ("vector_mixed",), ("script_other",)][:rng.randrange(4, 12)]
             calls += [(), (rng.choice(kinds), rng.choice(kinds))]          # wrong arity
         else:
             sigs = rng.sample(range(len(CAT2)), rng.choice([1, 2, 3]))
